@@ -10,7 +10,9 @@ def run(tier):
     run.confirm_known()
     q = tier == "quick"
     to = 900 if q else 3000
-    base = {"H_ITEMS": "2" if q else "3", "H_TEXT": "a\xe9€" if q else "a\xe9€\U0001f600", "H_TLEN": "1"}
+    # thorough: the full 4-class alphabet, every cut position, more three-leaf kind sequences, request orders of length 3
+    # (general three-item sequences with symbolic kinds cost > 1.5 h on 4 cores and were replaced by fixed-kind conditions)
+    base = {"H_ITEMS": "2", "H_TEXT": "a\xe9€" if q else "a\xe9€\U0001f600", "H_TLEN": "1"}
     if not q:
         base["H_SPLITS"] = "all"
     conds = []
@@ -18,18 +20,18 @@ def run(tier):
         conds.append(Cond("h_value.py", "views_match", to, twin="reach" if which in (1, 2) else None, path_timeout=to / 2,
                           env=dict(base, H_WHICH=str(which))))
     # three-leaf sequences with a bit run between two valued leaves (quick tier: leaf sequence fixed per condition)
-    for kinds in ("0,2,0", "0,3,0", "1,2,0", "0,2,1", "2,0,2"):
+    for kinds in ("0,2,0", "0,3,0", "1,2,0", "0,2,1", "2,0,2") + (() if q else ("1,3,1", "3,0,3", "2,1,2", "0,1,2")):
         for which in (1, 2):
             conds.append(Cond("h_value.py", "views_match", to, path_timeout=to / 2, env=dict(base, H_WHICH=str(which), H_KINDS=kinds, H_ITEMS="3")))
     conds.append(Cond("h_value.py", "views_match", to, path_timeout=to / 2, env=dict(base, H_WHICH="5")))  # int() of bit-only trees
     for first in range(3):
         conds.append(Cond("h_value.py", "order_independent", to, path_timeout=to / 2,
-                          env={"H_ITEMS": "2" if q else "3", "H_ORDER": "2" if q else "3", "H_FIRST": str(first)}))
+                          env={"H_ITEMS": "2", "H_ORDER": "2" if q else "3", "H_FIRST": str(first)}))
     run.run_conditions(conds, conformance_harnesses=["h_value.py"])
     run.encoded = ["TreeValue.__init__/append/_reduce_trailing_bits/to_string/to_bytes/to_bits/type_/__str__/__bytes__",
                    "DerivationTree.value/to_string/to_bytes/to_bits/__str__/__bytes__", "Terminal.__init__", "Symbol.value"]
     run.extra["source_sha256_16"] = source_fingerprint(FILES)
-    run.bounds = {"leaf sequence": f"<= {base['H_ITEMS']} items of: text leaf | bytes leaf | run of 8 bit leaves | run of 4 bit leaves",
+    run.bounds = {"leaf sequence": f"<= {base['H_ITEMS']} items of: text leaf | bytes leaf | run of 8 bit leaves | run of 4 bit leaves (kinds symbolic), plus three-leaf sequences with the kinds fixed per condition",
                   "text": f"len <= {base['H_TLEN']} over {base['H_TEXT']!r} (1-,2-,3-,4-byte UTF-8; inside/outside Latin-1)",
                   "bytes leaf": "len <= 1 over {0x61, 0xe9}", "bit patterns": "00000000, 10100101, 11111111",
                   "nesting": "flat, or the flat leaf list cut into two sibling subtrees (second one nested one level deeper) "
